@@ -825,4 +825,93 @@ theorem idMatch_spec {r b : Option Ident} {m : Bool} (h : idMatch r b m = true) 
     | true => simpa [List.isPrefixOf_iff_prefix] using h
     | false => simpa using h
 
+/-! ## path normalisation -/
+
+def AllUp : List Seg → Prop
+  | [] => True
+  | .up :: t => AllUp t
+  | _ :: _ => False
+
+/-- a normalisation stack: names on top of `..`s, no `.` -/
+def Stk : List Seg → Prop
+  | [] => True
+  | .nm _ :: t => Stk t
+  | .up :: t => AllUp t
+  | .cur :: _ => False
+
+theorem Stk_of_AllUp : ∀ {l : List Seg}, AllUp l → Stk l
+  | [], _ => trivial
+  | .up :: t, h => h
+  | .cur :: _, h => h.elim
+  | .nm _ :: _, h => h.elim
+
+theorem Stk_tail : ∀ {x : Seg} {l : List Seg}, Stk (x :: l) → Stk l
+  | .nm _, _, h => h
+  | .up, _, h => Stk_of_AllUp h
+  | .cur, _, h => h.elim
+
+/-- normalising from a stack yields the reverse of a stack -/
+theorem normAcc_stk : ∀ (l acc : List Seg), Stk acc → ∃ acc', Stk acc' ∧ normAcc acc l = acc'.reverse
+  | [], acc, h => ⟨acc, h, rfl⟩
+  | .cur :: t, acc, h => by simpa [normAcc] using normAcc_stk t acc h
+  | .nm n :: t, acc, h => by simpa [normAcc] using normAcc_stk t (.nm n :: acc) h
+  | .up :: t, [], _ => by simpa [normAcc] using normAcc_stk t [.up] trivial
+  | .up :: t, .nm _ :: acc, h => by simpa [normAcc] using normAcc_stk t acc h
+  | .up :: t, .up :: acc, h => by
+    simpa [normAcc] using normAcc_stk t (.up :: .up :: acc) (show AllUp (.up :: acc) from h)
+  | .up :: t, .cur :: acc, h => h.elim
+
+/-- pushing one element of a stack back from the input rebuilds the stack -/
+theorem normAcc_push {x : Seg} {acc l : List Seg} (h : Stk (x :: acc)) :
+    normAcc acc (x :: l) = normAcc (x :: acc) l := by
+  cases x with
+  | cur => exact h.elim
+  | nm n => rfl
+  | up =>
+    cases acc with
+    | nil => rfl
+    | cons y acc' =>
+      cases y with
+      | up => rfl
+      | cur => exact (show AllUp (.cur :: acc') from h).elim
+      | nm n => exact (show AllUp (.nm n :: acc') from h).elim
+
+theorem normAcc_replay : ∀ (a2 a1 l : List Seg), Stk (a2 ++ a1) →
+    normAcc a1 (a2.reverse ++ l) = normAcc (a2 ++ a1) l
+  | [], a1, l, _ => rfl
+  | x :: a2, a1, l, h => by
+    have h' : Stk (a2 ++ a1) := Stk_tail h
+    rw [List.reverse_cons, List.append_assoc, List.singleton_append, normAcc_replay a2 a1 (x :: l) h']
+    exact normAcc_push h
+
+/-! ## verification cache -/
+
+theorem runVerify_transparent [DecidableEq κ] (key : VQ → κ)
+    (hkey : ∀ q q', key q = key q' → q.decide = q'.decide) :
+    ∀ (hist : List VQ) (cache : List κ), (∀ q, cache.contains (key q) = true → q.decide = true) →
+      runVerify key cache hist = hist.map VQ.decide
+  | [], _, _ => rfl
+  | q :: t, cache, hc => by
+    simp only [runVerify, List.map_cons]
+    by_cases hin : cache.contains (key q) = true
+    · have h1 : cachedVerify key cache q = (true, cache) := by
+        unfold cachedVerify; rw [if_pos hin]
+      rw [h1, hc q hin]
+      exact congrArg _ (runVerify_transparent key hkey t cache hc)
+    · by_cases hd : q.decide = true
+      · have h1 : cachedVerify key cache q = (true, key q :: cache) := by
+          unfold cachedVerify; rw [if_neg hin, if_pos hd]
+        rw [h1, hd]
+        refine congrArg _ (runVerify_transparent key hkey t _ ?_)
+        intro q' hq'
+        simp only [List.contains_cons, Bool.or_eq_true, beq_iff_eq] at hq'
+        rcases hq' with h | h
+        · rw [hkey q' q h]; exact hd
+        · exact hc q' h
+      · have h1 : cachedVerify key cache q = (false, cache) := by
+          unfold cachedVerify; rw [if_neg hin, if_neg hd]
+        have hd' : q.decide = false := by simpa using hd
+        rw [h1, hd']
+        exact congrArg _ (runVerify_transparent key hkey t cache hc)
+
 end DclabModel.Basin
